@@ -66,6 +66,28 @@ def sleep_buffer(gateway):
     return found[0]
 
 
+def direct_stream_transport(open_fn):
+    """A concrete `StreamTransport` whose connection is opened by the coroutine function `open_fn()` (-> reader, writer),
+    built on the class's abstract hook — IF that hook still is the single coroutine method `_open_connection`.  The
+    hook is private: a library that organises the opening differently (a factory, a sync hook returning an opener, ...)
+    has not changed any behaviour a property speaks about, so this returns None then and the caller goes through
+    `TCPTransport` / `SerialTransport` and the module-level open functions they call (`asyncio.open_connection`,
+    `transport.serial.open_serial_connection` — the seams the library's own tests patch).  DESIGN 13, false alarm 13."""
+    import inspect  # noqa: PLC0415
+
+    from aiomysensors.transport import StreamTransport  # noqa: PLC0415
+
+    hook = StreamTransport.__dict__.get("_open_connection")
+    if set(getattr(StreamTransport, "__abstractmethods__", ())) != {"_open_connection"} or not inspect.iscoroutinefunction(hook):
+        return None
+
+    class Direct(StreamTransport):
+        async def _open_connection(self):
+            return await open_fn()
+
+    return Direct()
+
+
 # ---- string transport encoding ---------------------------------------------------------------
 
 
